@@ -405,8 +405,13 @@ def run(ctx):
     ctx.rule('C02.BISECT', lambda: rule_bisect(ctx), 2)
     ctx.rule('C02.BYHEIGHT', lambda: rule_byheight(ctx), 4)
     ctx.rule('C02.LIMIT', lambda: c17.rule_generator_limit(ctx, 'C02.LIMIT'), 1)
+    from . import c03 as _c03
+    ctx.rule('C02.MEMO', lambda: _c03.rule_memo(ctx, 'C02.MEMO'), 12)
+    ctx.rule('C02.LOGICALFILE', lambda: c04.rule_logical_file(ctx, 'C02'), 2)
     ctx.rule('C02.FSMETA', lambda: c04.rule_file_offsets(ctx, 'C02'), 5)
     ctx.rule('C02.COLLISION', lambda: c01.rule_collision(ctx, 'C02.COLLISION'), 2)
+    ctx.rule('C02.LIMIT2', lambda: c17.rule_limit(ctx), 6)
+    ctx.rule('C02.SCRUB', lambda: c04.rule_scrub(ctx, 'C02'), 6)
     # a compacted (or half-compacted, or compaction-cancelled) database is still an index: the row-id discipline of the
     # compaction tool (C14) is a necessary condition of exact histories afterwards
     from . import c14
